@@ -10,7 +10,11 @@ RULE = ("histories of the real async client over a scripted mock transport vs th
         "histories (calls, batches, subscriptions, notifications; answers in any order, duplicated, omitted, foreign ids; "
         "both id kinds; gated transport) + every permutation of the answers to k<=3 (quick) / k<=4 (thorough) concurrent calls with one "
         "answer duplicated/omitted.  Oracle on the implementation alone: payload markers tie every completion to the id its call "
-        "put on the wire; at most one completion per call; wire ids pairwise distinct.  distinct non-trivial = distinct output "
+        "put on the wire; at most one completion per call; wire ids pairwise distinct.  Family c03_held_histories: 1..3 calls (or a call and "
+        "a batch / a subscribe call) are on the wire, their callers are then NOT polled (harness ops hold .. unhold; the model driver "
+        "reports the completions of that window at unhold) while the server answers some / all of them and the connection dies "
+        "(receive error, unparseable frame, response with no pending id; control without): a request answered before the fatal event "
+        "completes with that answer, never with the disconnect error (oracle key answered-call-completed-with-disconnect).  distinct non-trivial = distinct output "
         "lines with >= 2 completions/stream polls.  HTTP client (engine httpbatch, single-call mode, Model/HttpBatch.v http_single): "
         "one call answered with its own id / another id of either kind / null id, result or error object, and verbatim bodies; "
         "oracle: a result is delivered iff the response bears the call's own id (derived PartialEq: 1 and \"1\" differ).  "
@@ -30,6 +34,8 @@ def run(ctx):
     hs += C.c12_mixed_array_histories(ctx.rng, nmax=ctx.scale(3, 4))
     # a response whose id is the pending id written in the other JSON kind
     hs += C.c03_idkind_histories(ctx.rng)
+    # the callers are not polled (harness ops hold .. unhold) while the server answers and the connection then dies
+    hs += C.c03_held_histories(ctx.rng)
     # serde's SEQUENCE forms: calls / batch entries answered with error objects written `[code,message,data]`, notifications
     # written `["2.0",method,params]` / params `[sid,value]` next to them
     hs += C.seqform_histories(ctx.rng, reps=ctx.scale(3, 40))
